@@ -14,7 +14,7 @@ META = {
         "engine::transposition_table::TranspositionTable::{new_generation, get_entry_idx, get}",
         "engine::eval::Eval::{neg, mate_in, mated_in, with_mate_distance_from_position, with_mate_distance_from_root, add, sub, div}",
         "engine::search::tables::{HistoryTable::{new, add_bonus_for, get}, KillersTable::{new, get_0, get_1, try_push}, lmr_table::lmr_reduction}",
-        "engine::search::negamax::DepthReduction::{reduce_less_if, value}",
+        "engine::search::negamax::DepthReduction::{reduce_less_if, value}", "engine::util::metrics::nodes_per_second", "engine::search::params::{REVERSE_FUTILITY_PRUNE_*, FUTILITY_PRUNE_MAX_MOVE_VALUE} with Eval::{sub, add, mul, neg}",
     ],
     "stubs": [],
     "bounds": ["aspiration: histories of up to 24 fail-low/fail-high widenings after Window::around (the width saturates long before; unwind 26)",
@@ -51,6 +51,8 @@ def jobs(tier, seed):
         Job("c04_history_bonus", "HistoryTable::add_bonus_for from any stored score in [0,max], any depth: clamped, no overflow", timeout=600),
         Job("c04_history_index", "HistoryTable::get / CountermoveTable::get with any 16-bit move: in range", timeout=600),
         Job("c04_history_decay", "HistoryTable::decay divides every cell by the factor (symbolic cell)", timeout=1500, mem_gb=16),
+        Job("c04_nodes_per_second", "nodes_per_second for any node count and elapsed time (zero included): no panic", timeout=600),
+        Job("c04_pruning_margins", "pruning-margin / null-window expressions of negamax.rs restated with the real operators and constants: no i16 overflow", timeout=300),
         Job("c04_killers", "KillersTable get/try_push for all plies < 255 and any two moves", timeout=600),
         Job("c04_lmr_and_reduction", "lmr_reduction + DepthReduction for every depth, move count", timeout=300),
         Job("c04_tt_index", "get_entry_idx/get on empty tables of 1..4 slots, any key", timeout=300),
